@@ -13,6 +13,7 @@ CONSTANTS
   MaxSep = 1
   UseFat = FALSE
   GFns = {0, 1, 2}
+  NestOffs = {}
   MaxOpsPerFrame = 0
   MaxResets = 0
 INVARIANT RingAgrees
